@@ -10,8 +10,9 @@
    contain such a loop (profile_tier_level, st_ref_pic_set, scaling-list skipping, VUI/HRD, 3D extension,
    ref_pic_lists_modification, pred_weight_table, byte_alignment, the end-of-data check) are USED from
    C15HevcModel.v, not copied.
-   What stays OutOfFuel on purpose: `if mf || df then out_of_fuel` in the PPS (parseMultilayerExtension /
-   parse3dExtension are not modelled by C15): the theorems state it as the only remaining case.
+   Where C15 has `if mf || df then out_of_fuel` in the PPS (parseMultilayerExtension / parse3dExtension are not
+   modelled by C15) this file has its own totality skeletons of the two extension parsers (hparse_pps_ml_d,
+   hparse_pps_3d_d): nothing is OutOfFuel on purpose any more.
    Panic: `nth_error sets (idx - didx) = None` in hparse_st_rps (Go: sps.ShortTermRefPicSets[idx-deltaIdx]);
    the proofs show it unreachable from the parsers' own states and for SPS values satisfying hsps_wf. *)
 From V.lib Require Import Base.
@@ -179,6 +180,125 @@ Section C16HevcParsers.
     let '(n, mono, lb, cb, ini) := pal in
     ret (mkHPpsScc cpr ract sp ay acb acr pip n mono lb cb ini).
 
+  (* ================================================================== PPS multilayer / 3D extensions
+     hevc/pps.go parseMultilayerExtension, parseColourMappingTable, parseColourMappingOctants,
+     parse3dExtension, parseDeltaDlt.  C15HevcModel does not model them (`if mf || df then out_of_fuel`).
+     The hpps record has no field for their content and ParseSliceHeader does not use it, so these are
+     SKELETONS: what is read, in which order and under which conditions, how often every loop runs, where
+     the parser gives up (`fail` = a non-nil error returned up to ParsePPSNALUnit); decoded values that only
+     end up in the returned structure (and the map keys built from the octant indices) are dropped.
+     Integer widths as in Go: uint8(...) = u8, uint = u64, int(uint) = two's complement. *)
+  (* int(x) of a uint, and the wrap of int arithmetic *)
+  Definition int_of_u64 (x : N) : Z :=
+    if u64 x <? 9223372036854775808 then Z.of_N (u64 x) else (Z.of_N (u64 x) - 18446744073709551616)%Z.
+  Definition wrap_i64 (z : Z) : Z :=
+    ((z + 9223372036854775808) mod 18446744073709551616 - 9223372036854775808)%Z.
+
+  Definition four_se : @M St unit := a <- rd_se R ;; b <- rd_se R ;; c <- rd_se R ;; d <- rd_se R ;; ret tt.
+  Definition four_ue : @M St unit := a <- rd_ue R ;; b <- rd_ue R ;; c <- rd_ue R ;; d <- rd_ue R ;; ret tt.
+
+  (* one iteration of `for i := uint(0); i < ext.NumRefLocOffsets; i++` (the map is keyed by the 6-bit id just
+     appended: RefLocOffsetLayerIds[i] is the element appended in this iteration) *)
+  Definition hml_ref_loc_entry : @M St unit :=
+    id <- rd R 6 ;;
+    a <- rd_flag R ;; u1 <- (if a then four_se else ret tt) ;;
+    b <- rd_flag R ;; u2 <- (if b then four_se else ret tt) ;;
+    c <- rd_flag R ;; u3 <- (if c then four_ue else ret tt) ;;
+    ret tt.
+
+  (* CodedRes[c]: res_coeff_q ue(v), res_coeff_r u(resLsBits), res_coeff_s if one of them is non-zero *)
+  Definition hoct_coeff (res_ls_bits : N) : @M St unit :=
+    q <- rd_ue R ;; r <- rd R res_ls_bits ;;
+    if negb (q =? 0) || negb (r =? 0) then x <- rd_flag R ;; ret tt else ret tt.
+  Definition hoct_entry (res_ls_bits : N) : @M St unit :=
+    f <- rd_flag R ;; if f then l <- rep 3 (hoct_coeff res_ls_bits) ;; ret tt else ret tt.
+  Definition hoct_leaf (part_num_y res_ls_bits : N) : @M St unit :=
+    l <- rep (N.to_nat part_num_y) (rep 4 (hoct_entry res_ls_bits)) ;; ret tt.
+
+  (* parseColourMappingOctants: d = octantDepth - inpDepth (the recursion splits only while inpDepth < octantDepth);
+     an error of a recursive call is returned at once (the monad's Err), and every call ends with
+     `if r.AccError() != nil { return octs, r.AccError() }` *)
+  Fixpoint hoctants (d : nat) (part_num_y res_ls_bits : N) : @M St unit :=
+    match d with
+    | O =>
+        u <- hoct_leaf part_num_y res_ls_bits ;;
+        e <- get_err R ;; if e then fail else ret tt
+    | S d' =>
+        split <- rd_flag R ;;
+        u <- (if split then l <- rep 8 (hoctants d' part_num_y res_ls_bits) ;; ret tt
+              else hoct_leaf part_num_y res_ls_bits) ;;
+        e <- get_err R ;; if e then fail else ret tt
+    end.
+
+  (* parseColourMappingTable *)
+  Definition hparse_cm_table : @M St unit :=
+    n <- rd_ue R ;;
+    (* for i := uint8(0); i <= n8; i++ { Read(6); if AccError != nil || i == 255 { break } }: n8 + 1 <= 256 rounds *)
+    ids <- rep_until_err_f fuel (u8 n + 1) (rd R 6) ;;
+    od <- rd R 2 ;; yp <- rd R 2 ;;
+    lin <- rd_ue R ;; cin <- rd_ue R ;; lout <- rd_ue R ;; cout <- rd_ue R ;;
+    rq <- rd R 2 ;; dfb <- rd R 2 ;;
+    th <- (if u8 od =? 1 then a <- rd_se R ;; b <- rd_se R ;; ret tt else ret tt) ;;
+    let res0 := wrap_i64 (10 + int_of_u64 (lin + 8) - int_of_u64 (lout + 8) - Z.of_N (u8 rq) - Z.of_N (u8 (u8 dfb + 1))) in
+    let res_ls_bits := if (res0 <? 0)%Z then 0 else Z.to_N res0 in
+    u <- hoctants (N.to_nat (u8 od)) (2 ^ u8 yp) res_ls_bits ;;
+    e <- get_err R ;; if e then fail else ret tt.
+
+  (* parseMultilayerExtension *)
+  Definition hparse_pps_ml_d : @M St unit :=
+    poc <- rd_flag R ;;
+    inf <- rd_flag R ;;
+    sl <- (if inf then rd R 6 else ret 0) ;;
+    n <- rd_ue R ;;
+    offs <- rep_until_err_f fuel n hml_ref_loc_entry ;;
+    cm <- rd_flag R ;;
+    u <- (if cm then hparse_cm_table else ret tt) ;;
+    e <- get_err R ;; if e then fail else ret tt.
+
+  (* parseDeltaDlt(r, w): w = pps_bit_depth_for_depth_layers_minus8 + 8.  The last loop reads
+     Ceil(Log2(max_diff - minDiff + 1)) bits per entry; that width is 0 only if the uint expression wraps to 0 or 1,
+     which needs max_diff = 2^64 - 1 (no w-bit read returns that; the abstract reader interface does not bound
+     read values, so the case is kept): Go would then make num - 1 reads of 0 bits, which leave the reader as it is *)
+  Definition hparse_delta_dlt (w : N) : @M St unit :=
+    num0 <- rd R w ;;
+    let num := u64 num0 in
+    u <- (if 0 <? num then
+            maxd0 <- (if 1 <? num then rd R w else ret 0) ;;
+            let maxd := u64 maxd0 in
+            mind0 <- (if (2 <? num) && (0 <? maxd) then rd R (ceil_log2 (u64 (maxd + 1)))
+                      else ret (u64 (maxd + 18446744073709551615))) ;;
+            let min1 := u64 (u64 mind0 + 1) in
+            v0 <- rd R w ;;
+            if min1 <? maxd then
+              let wd := ceil_log2 (u64 (u64 (maxd + 18446744073709551616 - min1) + 1)) in
+              if wd =? 0 then ret tt
+              else l <- rep_until_err_f fuel (num - 1) (rd R wd) ;; ret tt
+            else ret tt
+          else ret tt) ;;
+    e <- get_err R ;; if e then fail else ret tt.
+
+  (* one depth layer of parse3dExtension *)
+  Definition hparse_depth_layer (bd : N) : @M St unit :=
+    dlt <- rd_flag R ;;
+    if dlt then
+      pred <- rd_flag R ;;
+      vf <- (if negb pred then rd_flag R else ret false) ;;
+      if vf then
+        (* for j := 0; j <= depthMaxValue; j++ { ReadFlag; break on error }: 2^(bd+8) rounds at most *)
+        l <- rep_until_err_f fuel (2 ^ (u8 (bd + 8))) (rd_flag R) ;; ret tt
+      else hparse_delta_dlt (u8 (bd + 8))
+    else ret tt.
+
+  (* parse3dExtension *)
+  Definition hparse_pps_3d_d : @M St unit :=
+    dlts <- rd_flag R ;;
+    u <- (if dlts then
+            n <- rd R 6 ;;
+            bd <- rd R 4 ;;
+            l <- rep_until_err_f fuel (u8 n + 1) (hparse_depth_layer (u8 bd)) ;; ret tt
+          else ret tt) ;;
+    e <- get_err R ;; if e then fail else ret tt.
+
   Definition hparse_pps_d (spsmap : N -> bool) : @M St hpps :=
     hdr <- rd R 16 ;;
     if negb (hnalu_type hdr =? 34) then fail else
@@ -237,7 +357,11 @@ Section C16HevcParsers.
     e <- get_err R ;;
     if e then fail else
     rg <- (if rf then x <- hparse_pps_range_d tskip ;; ret (Some x) else ret None) ;;
-    if mf || df then out_of_fuel else
+    (* `if pps.MultilayerExtensionFlag { ... }  if pps.D3ExtensionFlag { ... }` (skeletons above; C15: out_of_fuel) *)
+    xu <- (if mf || df then
+             u1 <- (if mf then hparse_pps_ml_d else ret tt) ;;
+             (if df then hparse_pps_3d_d else ret tt)
+           else ret tt) ;;
     sc <- (if sf then x <- hparse_pps_scc_d ;; ret (Some x) else ret None) ;;
     ed <- (if 0 <? e4 then hext_data_loop R fuel [] else ret []) ;;
     hparse_end R
@@ -450,19 +574,16 @@ Definition hsps_has (l : list hsps) (id : N) : bool :=
 
 (* ---- well-formedness of parameter sets handed to the slice-header parser (boolean; what the parsers
    themselves guarantee of their results, C16HevcErProofs.v): the SPS lists at least the announced number of
-   short-term reference picture sets and every NumDeltaPocs fits a uint8; num_extra_slice_header_bits is a uint8 *)
+   short-term reference picture sets and every NumDeltaPocs is below 255 (Go: `for j := byte(0); j <= numDeltaPocs; j++`
+   does not terminate for 255; the model's rep_n (NumDeltaPocs + 1) is that loop for NumDeltaPocs <= 254);
+   num_extra_slice_header_bits is a uint8 *)
 Definition hsps_wfb (sp : hsps) : bool :=
-  (h_num_st_rps sp <=? lenN (h_st_rps sp)) && forallb (fun r => rps_ndelta r <=? 255) (h_st_rps sp).
+  (h_num_st_rps sp <=? lenN (h_st_rps sp)) && forallb (fun r => rps_ndelta r <=? 254) (h_st_rps sp).
 Definition hpps_wfb (pp : hpps) : bool := pp_num_extra_bits pp <=? 255.
 
 (* the pipeline of mp4ff-nallister / the harness target hevc.ParsePSAndSlice: a hostile SPS and PPS are
-   parsed and added to the reference sets, then the slice header is parsed against both maps.
-   OutOfFuel = the hostile PPS selects an extension C15HevcModel does not cover (outside the model). *)
+   parsed and added to the reference sets, then the slice header is parsed against both maps. *)
 Definition hevc_ps_and_slice (cs : list hsps) (cp : list hpps) (a b rest : list N) : res hslice :=
   let spss := cs ++ (match c16_hparse_sps a with Ok s => [s] | _ => [] end) in
-  match c16_hparse_pps (hsps_has spss) b with
-  | OutOfFuel => OutOfFuel
-  | r =>
-      let ppss := cp ++ (match r with Ok p => [p] | _ => [] end) in
-      c16_hparse_slice (hsps_lookup spss) (hpps_lookup ppss) rest
-  end.
+  let ppss := cp ++ (match c16_hparse_pps (hsps_has spss) b with Ok p => [p] | _ => [] end) in
+  c16_hparse_slice (hsps_lookup spss) (hpps_lookup ppss) rest.
